@@ -180,6 +180,23 @@ pub fn bysec(st: &State, fam: &str, rest: &str) -> String {
 	})
 }
 
+/// secname <k> <i>: `SectionHeader::name()` and `name_bytes()` of the i-th section
+pub fn secname(st: &State, rest: &str) -> String {
+	let a: Vec<&str> = rest.split(' ').collect();
+	if a.len() != 2 { return "bad-op".to_string(); }
+	let (k, i) = (a[0], num(a[1]) as usize);
+	with_any!(st, k, g, p => {
+		let _ = g;
+		match p.section_headers().iter().nth(i) {
+			Some(s) => {
+				let nm = match s.name() { Ok(x) => format!("str {}", hex(x.as_bytes())), Err(b) => format!("raw {}", hex(b)) };
+				format!("ok {} bytes={}", nm, hex(s.name_bytes()))
+			},
+			None => "nosec".to_string(),
+		}
+	})
+}
+
 // ---------------------------------------------------------------------------------------------
 // second audit round: `slice_bytes` / `read_bytes`, and every header accessor through the API of
 // the constructed object itself (`hdrw2`: for `wf` / `wv` that is `Wrap::headers()`,
@@ -264,6 +281,7 @@ pub fn dispatch(st: &mut State, fam: &str, rest: &str) -> Option<String> {
 		"read" => read(st, rest),
 		"secbytes" => secbytes(st, rest),
 		"byrva" | "byname" => bysec(st, fam, rest),
+		"secname" => secname(st, rest),
 		_ => return None,
 	})
 }
